@@ -1,2 +1,181 @@
--- stub: replaced by the model driver of this property
-def main : IO Unit := pure ()
+import SdcModel.Basic.Io
+import SdcModel.ObjGraph
+open Sdc Sdc.ObjGraph
+
+/-! Model driver for C12 (M2 `ObjGraph`).
+
+table lines (before the first `reset`):
+  `D <tree>`                                         next class-level default
+  `C <copyDeep> <deepOk> <updDeep> <n> (<desc> <mode> <mode> <get>)*n`   next class
+     tree  = `i v` | `o id n <tree>*n`
+     mode  = `mi v` | `mf <tree>` | `mc` | `md`        get = `gp` | `gi v` | `gl` | `gs`
+ops:
+  `reset` | `construct c` | `parse c <shape>` | `copy i` | `deepcopy i`
+  `set i <plen> <path>* k <new>` | `append i <plen> <path>* <new>` | `update i j <n> <skip>*`
+     shape = `a` | `i v` | `o cls n <shape>*n` | `l n <shape>*n`      new = `i v` | `c cls` | `t <tree>`
+answer: `ok` for table lines, `ok D <trees> | I <trees>` after an op (objects renumbered in first-visit order; only the defaults that are objects are listed), `err`
+for an op the model rejects, `bad-op` for an ill-formed line. -/
+
+abbrev Toks := List String
+
+mutual
+def pTree : Nat → Toks → Option (Tree × Toks)
+  | 0, _ => none
+  | _ + 1, "i" :: v :: r => v.toNat?.map fun n => (.imm n, r)
+  | f + 1, "o" :: id :: n :: r => match id.toNat?, n.toNat? with
+    | some id, some n => (pTrees f n r).map fun (ks, r') => (.obj id ks, r')
+    | _, _ => none
+  | _ + 1, _ => none
+def pTrees : Nat → Nat → Toks → Option (List Tree × Toks)
+  | 0, _, _ => none
+  | _ + 1, 0, r => some ([], r)
+  | f + 1, n + 1, r => match pTree f r with
+    | some (t, r') => (pTrees f n r').map fun (ts, r'') => (t :: ts, r'')
+    | none => none
+end
+
+mutual
+def pShape : Nat → Toks → Option (Shape × Toks)
+  | 0, _ => none
+  | _ + 1, "a" :: r => some (.absent, r)
+  | _ + 1, "i" :: v :: r => v.toNat?.map fun n => (.imm n, r)
+  | f + 1, "o" :: c :: n :: r => match c.toNat?, n.toNat? with
+    | some c, some n => (pShapes f n r).map fun (ks, r') => (.obj c ks, r')
+    | _, _ => none
+  | f + 1, "l" :: n :: r => match n.toNat? with
+    | some n => (pShapes f n r).map fun (ks, r') => (.list ks, r')
+    | none => none
+  | _ + 1, _ => none
+def pShapes : Nat → Nat → Toks → Option (List Shape × Toks)
+  | 0, _, _ => none
+  | _ + 1, 0, r => some ([], r)
+  | f + 1, n + 1, r => match pShape f r with
+    | some (t, r') => (pShapes f n r').map fun (ts, r'') => (t :: ts, r'')
+    | none => none
+end
+
+def pMode (f : Nat) : Toks → Option (Mode × Toks)
+  | "mi" :: v :: r => v.toNat?.map fun n => (.imm n, r)
+  | "mf" :: r => (pTree f r).map fun (t, r') => (.fresh t, r')
+  | "mc" :: r => some (.copyDefault, r)
+  | "md" :: r => some (.theDefault, r)
+  | _ => none
+
+def pGet : Toks → Option (GetMode × Toks)
+  | "gp" :: r => some (.plain, r)
+  | "gi" :: v :: r => v.toNat?.map fun n => (.implied n, r)
+  | "gl" :: r => some (.lazy, r)
+  | "gs" :: r => some (.sharedImplied, r)
+  | _ => none
+
+def pProps (f : Nat) : Nat → Toks → Option (List PropE × Toks)
+  | 0, r => some ([], r)
+  | n + 1, d :: r => do
+    let d ← d.toNat?
+    let (c, r) ← pMode f r
+    let (a, r) ← pMode f r
+    let (g, r) ← pGet r
+    let (ps, r) ← pProps f n r
+    pure (⟨d, c, a, g⟩ :: ps, r)
+  | _ + 1, [] => none
+
+def pNew (f : Nat) : Toks → Option (NewVal × Toks)
+  | "i" :: v :: r => v.toNat?.map fun n => (.imm n, r)
+  | "c" :: v :: r => v.toNat?.map fun n => (.construct n, r)
+  | "t" :: r => (pTree f r).map fun (t, r') => (.tmpl t, r')
+  | _ => none
+
+def takeNats : Nat → Toks → Option (List Nat × Toks)
+  | 0, r => some ([], r)
+  | n + 1, x :: r => match x.toNat?, takeNats n r with
+    | some v, some (vs, r') => some (v :: vs, r')
+    | _, _ => none
+  | _ + 1, [] => none
+
+/-- canonical dump: objects renumbered in first-visit order -/
+def lookup (m : List (Nat × Nat)) (id : Nat) : Option Nat := (m.find? (·.1 == id)).map (·.2)
+
+mutual
+def dTree : List (Nat × Nat) → Tree → String × List (Nat × Nat)
+  | m, .imm v => ("i" ++ toString v, m)
+  | m, .obj id ks =>
+    let (k, m1) := match lookup m id with
+      | some k => (k, m)
+      | none => (m.length + 1, m ++ [(id, m.length + 1)])
+    let (s, m2) := dTrees m1 ks
+    ("o" ++ toString k ++ "(" ++ ",".intercalate s ++ ")", m2)
+def dTrees : List (Nat × Nat) → List Tree → List String × List (Nat × Nat)
+  | m, [] => ([], m)
+  | m, t :: ts =>
+    let (s, m1) := dTree m t
+    let (ss, m2) := dTrees m1 ts
+    (s :: ss, m2)
+end
+
+def dump (s : St) : String :=
+  let (d, m) := dTrees [] (s.defaults.filter fun t => match t with | .obj _ _ => true | .imm _ => false)
+  let (i, _) := dTrees m (s.insts.map (·.tree))
+  "ok D " ++ " ".intercalate d ++ " | I " ++ " ".intercalate i
+
+structure DSt where
+  T : Table := []
+  D : List Tree := []
+  s : St := init []
+
+def fuel (ts : Toks) : Nat := ts.length + 2
+
+def parseOp (ts : Toks) : Option Op :=
+  let f := fuel ts
+  match ts with
+  | ["construct", c] => c.toNat?.map Op.construct
+  | "parse" :: c :: r => match c.toNat?, pShape f r with
+    | some c, some (sh, []) => some (.parse c sh)
+    | _, _ => none
+  | ["copy", i] => i.toNat?.map Op.copy
+  | ["deepcopy", i] => i.toNat?.map Op.deepcopy
+  | "set" :: i :: n :: r => do
+    let i ← i.toNat?
+    let n ← n.toNat?
+    let (path, r) ← takeNats n r
+    match r with
+    | k :: r => do
+      let k ← k.toNat?
+      match pNew f r with
+      | some (v, []) => pure (.setKid i path k v)
+      | _ => none
+    | [] => none
+  | "append" :: i :: n :: r => do
+    let i ← i.toNat?
+    let n ← n.toNat?
+    let (path, r) ← takeNats n r
+    match pNew f r with
+    | some (v, []) => pure (.append i path v)
+    | _ => none
+  | "update" :: i :: j :: n :: r => do
+    let i ← i.toNat?
+    let j ← j.toNat?
+    let n ← n.toNat?
+    match takeNats n r with
+    | some (skip, []) => pure (.update i j skip)
+    | _ => none
+  | _ => none
+
+def stepLine (st : DSt) (line : String) : DSt × String :=
+  let ts := Io.words line
+  match ts with
+  | "D" :: r => match pTree (fuel ts) r with
+    | some (t, []) => ({ st with D := st.D ++ [t] }, "ok")
+    | _ => (st, "bad-op")
+  | "C" :: cd :: dk :: ud :: n :: r => match cd.toNat?, dk.toNat?, ud.toNat?, n.toNat? with
+    | some cd, some dk, some ud, some n => match pProps (fuel ts) n r with
+      | some (ps, []) => ({ st with T := st.T ++ [⟨ps, cd != 0, dk != 0, ud != 0⟩] }, "ok")
+      | _ => (st, "bad-op")
+    | _, _, _, _ => (st, "bad-op")
+  | ["reset"] => ({ st with s := init st.D }, "ok")
+  | _ => match parseOp ts with
+    | none => (st, "bad-op")
+    | some op => match step st.T st.s op with
+      | some s' => ({ st with s := s' }, dump s')
+      | none => (st, "err")
+
+def main : IO Unit := Io.lineLoop stepLine {}
